@@ -124,6 +124,25 @@ Theorem keeps_newest_latest_history :
 Proof. exact keeps_newest_latest_history_lemma. Qed.
 Print Assumptions keeps_newest_latest_history.
 
+(** Closed form while latest-history is not edited: if feed [name] exists after [h1] with
+    latest-history [lh] and shows [k] values, and [h2] contains no successful edit of its
+    latest-history, then after [h1 ++ h2] the feed shows the newest min(lh, k + produced-during-h2)
+    of all values produced (newest first).  From the creation on (k = 0) this is the newest
+    min(latest_history, produced). *)
+Theorem newest_min_latest_history_produced :
+  forall (h1 h2 : list step) (name : Z) (f : feed),
+    run_wfb init (h1 ++ h2) = true ->
+    get name (feeds (run init h1)) = Some f ->
+    no_lh_editb (run init h1) h2 name = true ->
+    let L1 := ledger_run init h1 name ([], 0) in
+    exists new,
+      fst (ledger_run init (h1 ++ h2) name ([], 0)) = new ++ fst L1
+      /\ query_values (run init (h1 ++ h2)) name
+         = firstn (Z.to_nat (Z.min (f_lh f) (snd L1 + Z.of_nat (length new)))) (new ++ fst L1)
+      /\ get name (feeds (run init (h1 ++ h2))) = Some f.
+Proof. exact newest_min_lh_produced_lemma. Qed.
+Print Assumptions newest_min_latest_history_produced.
+
 (** rule 1: a completed batch of the feed's context that met its threshold puts its value in front
     and the window becomes min(latest_history, window + 1); a batch below its threshold changes nothing *)
 Theorem ledger_rule_batch :
@@ -235,6 +254,11 @@ Example c17_nonvacuous :
   /\ fst (exec (run init (firstn 9 ex_history)) (121, OPause 7 5)) = Rej
   /\ fst (exec (run init (firstn 9 ex_history)) (121, OPause 7 1)) = Ok.
 Proof. repeat split; vm_compute; reflexivity. Qed.
+
+Example c17_no_lh_edit_nonvacuous :
+  no_lh_editb (run init (firstn 2 ex_history)) (firstn 8 (skipn 2 ex_history)) 7 = true
+  /\ no_lh_editb (run init (firstn 2 ex_history)) (skipn 2 ex_history) 7 = false.
+Proof. split; vm_compute; reflexivity. Qed.
 
 (** the range hypothesis of theorem 2 holds of ordinary values *)
 Example c17_in_range : in_range (extract 0 (ex_out (-3))) /\ in_range (q_of_dec (123456789, 6)).
